@@ -227,9 +227,14 @@ def build_cases(spec, tier, uni, rnd):
                 if b != "atlas":
                     cm.pop("link_libraries", None)
                 md.append(cm)
+            if opts.get("md10"):
+                if md is None:
+                    md = [{k: v for k, v in m.items() if v != ""} for m in uni["md"][b]]
+                md += [{k: v for k, v in m.items() if v != ""} for m in uni["md10"][b]] + [uni["enummd"][b]]
             if opts.get("fnmd"):
                 md += [{k: v for k, v in m.items() if v != ""} for m in uni["fnmd"][b]]
             cases.append({"id": cid, "backend": b, "q": t["q"], "support": spec.support or t["support"], "declv": declv,
+                          "checkwarn": bool(opts.get("checkwarn")),
                           "src": render.render(t["q"], uni, b, style, md=md)})
     return cases, total, exhaustive, gen_states, gen_trans
 
